@@ -41,9 +41,6 @@ H5_CLASSES = ["DenseMatrix", "DenseTaxaMatrix", "DenseVariantMatrix", "DenseGeno
               "DensePhasedGenotypeMatrix", "DenseBreedingValueMatrix", "DenseMolecularCoancestryMatrix",
               "DenseSquareTaxaTraitMatrix", "DenseTwoWayDHAdditiveGeneticVarianceMatrix",
               "DenseAdditiveLinearGenomicModel", "DenseAdditiveDominanceLinearGenomicModel", "G_E_Phenotyping"]
-COPY_CLASSES = [c for c in CLASSES if c not in ("DenseMolecularCoancestryMatrix",
-                                                "DenseTwoWayDHAdditiveGeneticVarianceMatrix")] + \
-               ["DenseMolecularCoancestryMatrix", "DenseTwoWayDHAdditiveGeneticVarianceMatrix"]
 DF_CLASSES = ["DenseBreedingValueMatrix", "DenseMolecularCoancestryMatrix", "DenseSquareTaxaTraitMatrix",
               "DenseTwoWayDHAdditiveGeneticVarianceMatrix", "StandardGeneticMap", "ExtendedGeneticMap",
               "DenseAdditiveLinearGenomicModel", "DenseAdditiveDominanceLinearGenomicModel"]
@@ -87,7 +84,6 @@ _LABEL_POOLS = {
             "\U0001f33d%d", "Ж%dя"],
     "mixed": ["L%d", "漢%d", "sp ace %d", "ü-%d", "Entry-%d"],
     "tricky": ["a,b%d", "q\"t%d", "semi;%d", "tab%d", "sp ace %d", "#h%d"],
-    "numlike": ["%d", "1%d", "00%d", "2%d"],
 }
 
 
@@ -95,10 +91,7 @@ def _labels(kind, tag, n, rs):
     pool = _LABEL_POOLS[kind]
     out = numpy.empty(n, dtype=object)
     for i in range(n):
-        out[i] = (tag if kind != "numlike" else "") + (pool[int(rs.randint(len(pool)))] % i)
-    if kind == "numlike":   # digit-only labels, pairwise distinct, some with a leading zero
-        for i in range(n):
-            out[i] = str(100 + 3 * i) if i % 2 else ("0" + str(7 + 13 * i))
+        out[i] = tag + (pool[int(rs.randint(len(pool)))] % i)     # pairwise distinct by the index
     return out
 
 
@@ -524,7 +517,8 @@ def _toggle_slash(g):
     return g[:-1] if g.endswith("/") else g + "/"
 
 
-STALE = "hdf5-overwrite-stale-field"
+STALE = "hdf5-overwrite-stale-field"                  # a dataset of a field that is None in the later object survives
+STALE_HYPER = "hdf5-overwrite-stale-hyperparam"       # a key of an earlier hyper-parameter dict survives
 
 
 def _classify_h5(diffs, default):
@@ -532,11 +526,15 @@ def _classify_h5(diffs, default):
     hyper-parameter key expected absent) is the known stale-dataset class; anything else is `default`"""
     if not diffs:
         return default
+    kinds = set()
     for f, r in diffs:
-        stale = r.startswith("expected None, got a value") or (f == "hyperparams" and r.startswith("keys differ: extra=") and r.endswith("missing=[]"))
-        if not stale:
+        if f == "hyperparams" and r.startswith("keys differ: extra=") and r.endswith("missing=[]"):
+            kinds.add(STALE_HYPER)
+        elif r.startswith("expected None, got a value"):
+            kinds.add(STALE)
+        else:
             return default
-    return STALE
+    return STALE_HYPER if kinds == {STALE_HYPER} else STALE
 
 
 def _spec_rich(spec):
@@ -630,7 +628,6 @@ def run_h5(case):
 BV_LOCSCALE = "bvmat-from-pandas-ignores-location-scale"
 DF_ABSENT = "dataframe-absent-labels-synthesised"
 DF_REORDER = "dataframe-long-format-reorders-labels"
-CSV_NUMLIKE = "csv-numeric-like-labels-retyped"
 EGMAP_NAMES = "egmap-roundtrip-drops-name-fncode"
 CSV_TOL = 1e-12
 
@@ -804,8 +801,6 @@ def run_df(case):
                 and fields <= {"mat", "taxa", "trait", "taxa_grp"} \
                 and _same_content(_labelled_content(exp), _labelled_content(got), tol if via != "pandas" else 0.0):
             return True, DF_REORDER, msg
-        if via != "pandas" and spec.get("lab") == "numlike" and fields <= {"taxa", "trait", "vrnt_name"}:
-            return True, CSV_NUMLIKE, msg
         if via == "egmap" and fields <= {"vrnt_name", "vrnt_fncode"} and all(r.startswith("expected a value, got None") for _, r in dd):
             return True, EGMAP_NAMES, msg
         return True, default, msg
@@ -1085,7 +1080,7 @@ def run_vcf(case):
 H5_EMPTY = "hdf5-empty-label-array-crash"
 H5_HYPER_STR = "hdf5-hyperparams-str-read-as-bytes"
 VCF_EMPTY = "from-vcf-no-records-crash"
-KNOWN_CLS = {STALE, BV_LOCSCALE, DF_ABSENT, DF_REORDER, EGMAP_NAMES, GE_RNG, H5_EMPTY, H5_HYPER_STR, VCF_EMPTY}
+KNOWN_CLS = {STALE, STALE_HYPER, BV_LOCSCALE, DF_ABSENT, DF_REORDER, EGMAP_NAMES, GE_RNG, H5_EMPTY, H5_HYPER_STR, VCF_EMPTY}
 
 _ROUTES = {"h5": run_h5, "df": run_df, "copy": run_copy, "vcf": run_vcf}
 
